@@ -1064,7 +1064,7 @@ func TestVerif_C08(t *testing.T) {
 	maxNest := 3
 	r.Rule = "BFS over all histories up to the depth of Put/Delete/ClearPrefix/ClearPrefixLimit(0..2)/SetChildStorage/ClearChildStorage/DeleteChild/" +
 		"DeleteChildLimit(nil,0,1)/ClearPrefixInChild/ClearPrefixInChildWithLimit(1)/Start/Commit/Rollback (nesting <= 3) on the real TrieState over a real InMemoryTrie, " +
-		"from an empty and from a pre-populated committed state (main c1 k1 k2, child c1 {k1 k2}); main keys c1 k1 k2 k3 (c1 is also the child's name), child keys k1 k2, " +
+		"from an empty state, from a pre-populated committed state (main c1 k1 k2, child c1 {k1 k2}) and from that state with an open transaction that has already written k1 k3 and child k1 k2; main keys c1 k1 k2 k3 (c1 is also the child's name), child keys k1 k2, " +
 		"prefixes k k1 c (k1 equals a key; the empty prefix is excluded: Substrate refuses it). All keys of a namespace have equal length and no prefix ends in a zero " +
 		"nibble, so the recorded InMemoryTrie defects (absent key at a node boundary, trimmed zero nibble, limited clear order) cannot fire; the allDeleted flag is not " +
 		"compared for limit 0 with nothing matching outside a transaction (recorded trie behaviour). After every operation: return values of limited clears (only when no " +
@@ -1074,10 +1074,27 @@ func TestVerif_C08(t *testing.T) {
 	r.Assumption("oracle: engine/ref/c08_overlaymodel.go (sp-state-machine Ext/OverlayedChanges semantics as pinned in DESIGN §6 C08) and engine/ref/reftrie.go")
 	r.Assumption("the canonical dump omits Dirty flags and cached Merkle values of trie nodes (never read by TrieState; covered by C01)")
 	r.Assumption("listing order of GetKeysWithPrefixFromChild is not compared (sets); a 'child trie does not exist' error is read as 'no keys'")
-	for _, populated := range []bool{false, true} {
-		populated := populated
+	// third start state (added after a seeded change was missed): the populated state with an OPEN
+	// transaction that has already written main and child keys, so that "outer transaction has writes,
+	// nested transaction changes them, rollback, read" is three operations from the start
+	c08OpenTxPrefix := []c08Op{{kind: "start"}, {kind: "put", k: "k1", v: c08V2}, {kind: "put", k: "k3", v: c08V1}, {kind: "setChild", k: "k1", v: c08V2}, {kind: "setChild", k: "k2", v: c08V1}}
+	for mode := 0; mode < 3; mode++ {
+		populated := mode >= 1
+		openTx := mode == 2
 		h := &verifmc.Hist[*c08State]{
-			Fresh: func() *c08State { return c08Fresh(populated) },
+			Fresh: func() *c08State {
+				st := c08Fresh(populated && !openTx)
+				if openTx {
+					c08Populate(st)
+					for _, o := range c08OpenTxPrefix {
+						if d := c08Apply(st, o); d != "" {
+							panic("open-transaction start state: " + d)
+						}
+					}
+					st.soft, st.outcomes = nil, nil
+				}
+				return st
+			},
 			Ops:   func(s *c08State) []verifmc.Op { return c08Ops(s, maxNest) },
 			Apply: func(s *c08State, op verifmc.Op) string { return c08Apply(s, op.(c08Op)) },
 			Check: func(s *c08State) string {
@@ -1102,13 +1119,16 @@ func TestVerif_C08(t *testing.T) {
 			},
 			Depth: depth,
 		}
-		if populated {
+		if populated && !openTx {
 			h.Depth = depth + 1 // init(populated) is the first operation
 		}
 		h.Explore(r)
 		key := "empty"
 		if populated {
 			key = "populated"
+		}
+		if openTx {
+			key = "populated-with-open-transaction"
 		}
 		r.Extra["completed_depth_from_"+key] = r.Extra["completed_depth"]
 		r.Extra["new_states_per_depth_from_"+key] = r.Extra["new_states_per_depth"]
